@@ -11,6 +11,7 @@ import (
 	"flag"
 	"fmt"
 	"os"
+	"path/filepath"
 	"runtime/debug"
 	"sort"
 	"strconv"
@@ -37,6 +38,8 @@ func main() {
 		os.Exit(cmdCheck(os.Args[2:]))
 	case "replay":
 		os.Exit(cmdReplay(os.Args[2:]))
+	case "matrix":
+		os.Exit(cmdMatrix(os.Args[2:]))
 	case "dump":
 		os.Exit(cmdDump(os.Args[2:]))
 	case "paths":
@@ -136,6 +139,70 @@ func cmdCheck(args []string) (code int) {
 		getterMemo = map[*ssa.Function]int{}
 	}
 	return first.Finish(*root, start, seed, names)
+}
+
+// cmdMatrix loads the tree once and evaluates the quick tier of every property on it. It
+// writes no evidence; it prints, per property, the failing obligations (those not held,
+// not exempt and not listed as known findings). Used by scripts/selftest.sh only.
+func cmdMatrix(args []string) int {
+	fs := flag.NewFlagSet("matrix", flag.ExitOnError)
+	repo := fs.String("repo", envOr("REPO_DIR", "/repo"), "repository under analysis")
+	root := fs.String("root", envOr("VERIF_ROOT", "/verif"), "verif root (known findings)")
+	verbose := fs.Bool("v", false, "print the failing obligations")
+	_ = fs.Parse(args)
+	p, err := Load(*repo, "", "")
+	if err != nil {
+		fmt.Printf("LOAD FAILED: %v\n", err)
+		return 2
+	}
+	known, err := loadFindings(filepath.Join(*root, "known_findings.json"))
+	if err != nil {
+		fmt.Println(err)
+		return 2
+	}
+	var ids []string
+	for id := range registry {
+		ids = append(ids, id)
+	}
+	sort.Strings(ids)
+	var fired []string
+	for _, id := range ids {
+		failing := func() (n int) {
+			defer func() {
+				if r := recover(); r != nil {
+					fmt.Printf("PANIC %s: %v\n", id, r)
+					n = 1
+				}
+			}()
+			c := NewCtx(p, id, "quick")
+			registry[id](c)
+			c.finishExpectations()
+			for _, o := range c.Obs {
+				if o.Verdict == Held || o.Verdict == Exempt {
+					continue
+				}
+				if _, ok := known[o.Key()]; ok && o.Verdict == Violated {
+					continue
+				}
+				n++
+				if *verbose {
+					fmt.Printf("%s %s %s %s at %s: %s\n", id, o.Verdict, o.Rule, o.Instance, o.Construct, o.Detail)
+				}
+			}
+			return n
+		}()
+		if failing > 0 {
+			fired = append(fired, id)
+		}
+	}
+	fmt.Printf("FIRING:%s\n", func() string {
+		out := ""
+		for _, f := range fired {
+			out += " " + f
+		}
+		return out
+	}())
+	return 0
 }
 
 func verdictMap(c *Ctx) map[string]string {
